@@ -438,7 +438,7 @@ func equalRunes(a, b []rune) bool {
 }
 
 // inProvedFragment re-implements the Lean predicate `inW` (lean/CaddyModel/C17/Fragment.lean):
-// plain words (also with placeholder groups `{x}`, `a{x}b`), non-CR white space, `… {⏎ … ⏎}` blocks, simple double-quoted strings, comments without backslash / trailing blank (not right
+// plain words (also with placeholder groups `{x}`, `a{x}b`), non-CR white space, `… {⏎ … ⏎}` blocks, simple double-quoted and backquoted strings, comments without backslash / trailing blank (not right
 // after a brace on the same line, not right before `{`). On this
 // fragment token preservation and idempotence are THEOREMS (Props.fmt_preserves_tokens_partial /
 // fmt_idempotent_partial); the model prints the same bit (field W:), so the two definitions are
@@ -502,6 +502,20 @@ func inProvedFragment(x string) bool {
 			j := i + 1
 			for j < n && r[j] != '"' {
 				if r[j] == '\\' || r[j] == '\n' {
+					return false
+				}
+				j++
+			}
+			if j >= n || (j+1 < n && !unicode.IsSpace(r[j+1])) {
+				return false
+			}
+			i = j + 1
+			kind = kDq
+		} else if r[i] == '`' {
+			// a simple backquoted string: one line (a backslash is literal), closing backquote followed by white space
+			j := i + 1
+			for j < n && r[j] != '`' {
+				if r[j] == '\n' {
 					return false
 				}
 				j++
